@@ -361,6 +361,18 @@ func c05r4(c *core.Ctx) {
 	}
 	total, bad, nilnil := 0, 0, 0
 	okEnum := core.EnumPaths(dec, 2, 200000, func(pa core.Path) {
+		for m := 0; m+1 < len(pa); m++ {
+			if iff, ok := pa[m].Instrs[len(pa[m].Instrs)-1].(*ssa.If); ok {
+				if bo, ok := iff.Cond.(*ssa.BinOp); ok && (bo.Op == token.EQL || bo.Op == token.NEQ) {
+					if z, isK := core.ConstInt(bo.Y); isK && z == 0 {
+						tookZero := (bo.Op == token.EQL && pa[m+1] == pa[m].Succs[0]) || (bo.Op == token.NEQ && pa[m+1] == pa[m].Succs[1])
+						if tookZero && infeasibleZeroCount(pa, m, bo.X) {
+							return // phantom path
+						}
+					}
+				}
+			}
+		}
 		total++
 		failed := false
 		eofOnLength := false
@@ -388,7 +400,7 @@ func c05r4(c *core.Ctx) {
 					if failed && (bin.Op == token.EQL || bin.Op == token.NEQ) {
 						for _, pr := range [][2]ssa.Value{{bin.X, bin.Y}, {bin.Y, bin.X}} {
 							if z, isK := core.ConstInt(pr[1]); isK && z == 0 {
-								if en, isE := pr[0].(*ssa.Extract); isE && en.Index == 0 && fm.length != nil && en.Tuple == ssa.Value(fm.length.call) {
+								if en, isE := pa.ResolveAt(k, pr[0]).(*ssa.Extract); isE && en.Index == 0 && fm.length != nil && en.Tuple == ssa.Value(fm.length.call) {
 									if (bin.Op == token.EQL && tookTrue) || (bin.Op == token.NEQ && !tookTrue) {
 										eofOnLength = true
 									}
